@@ -140,37 +140,7 @@ def rule_I_INDEX(ctx, ev, ctors):
     # (c) to_terms_with_image: enumerate counter at the first placeholder; everything else pushed in order
     tti = f.hir_fn("to_terms_with_image", module="enum_narsese::term")
     ctx.fn(tti)
-    enum_calls = hir.find_calls(tti["body"], "enumerate")
-    revs = hir.find_calls(tti["body"], "rev")
-    ms = [n for n in hir.walk(tti["body"]) if n.get("k") == "Match" and strip(n["scrut"])["k"] == "Tup"]
-    ok = len(enum_calls) == 1 and not revs and len(ms) == 1
-    if ok:
-        arms = ms[0]["arms"]
-        first = arms[0]
-        ps = first["pat"]["pats"] if first["pat"]["k"] == "Tuple" else []
-        ok = (len(arms) == 2 and len(ps) == 2
-              and hir.pat_variants(ps[0]) == {"Placeholder"} and hir.pat_variants(ps[1]) == {"None"}
-              and arms[1]["pat"]["k"] == "Wild")
-        # binders by role: (counter, item) of the `for (counter, item) in ..enumerate()` pattern; the target vector is the 2nd parameter
-        loop_b = []
-        for n_ in hir.walk(tti["body"]):
-            if n_.get("k") == "Match" and "ForLoop" in n_.get("source", ""):
-                for n2 in hir.walk(n_["arms"][0]["body"]):
-                    if n2.get("k") == "Match":
-                        for a_ in n2["arms"]:
-                            if hir.pat_variants(a_["pat"]) == {"Some"}:
-                                inner_ = (a_["pat"].get("pats") or [fd["pat"] for fd in a_["pat"].get("fields", [])] or [{}])[0]
-                                if inner_.get("k") == "Tuple":
-                                    loop_b = [q.get("name") for q in inner_["pats"]]
-                        break
-                break
-        tparams = [q["name"] for q in tti["params"] if q.get("k") == "Binding"]
-        ok = ok and len(loop_b) == 2 and len(tparams) == 2
-        ins = hir.find_calls(first["body"], "insert")
-        ok = ok and len(ins) == 1 and field_path(ins[0]["args"][0]) == (loop_b[0],)
-        push = hir.find_calls(arms[1]["body"], "push")
-        ok = ok and len(push) == 1 and field_path(push[0]["recv"]) == (tparams[1],) and field_path(push[0]["args"][0]) == (loop_b[1],)
-        # the loop pattern binds (i, term) from enumerate
+    ok = tti_shape(tti)
     ctx.ob("I-INDEX", "to_terms_with_image: index = enumerate counter at the first placeholder; other items pushed in order", bool(ok), "")
     # (d) to_image_*_with_placeholder -> new_image_*(index, vec) with the vec filled by to_terms_with_image
     for nm, v in (("to_image_extension_with_placeholder", "ImageExtension"), ("to_image_intension_with_placeholder", "ImageIntension")):
@@ -274,6 +244,64 @@ def rule_N_INTERVAL(ctx, F_):
     pushed = {field_path(c["recv"]) for sc_ in scans for c in hir.find_calls(sc_, "push") if field_path(c["recv"])}
     ctx.ob("N-INTERVAL", "parse_atom applies the scanned name through set_atom_name", len(sets) == 1 and len(pushed) == 1 and field_path(sets[0]["args"][0]) in pushed, "")
 
+
+
+def tti_shape(tti):
+    """to_terms_with_image: one loop over `..enumerate()` (not reversed) whose body is ONE two-way decision "item is the placeholder and no
+    index was recorded yet" (spelled as a tuple match, as `if slot.is_none() && matches!(item, Placeholder)`, ..: hir.decision); that branch
+    records the enumerate counter in the slot (`slot.insert(counter)` / `slot = Some(counter)`) and stores nothing, the other branch pushes the
+    item to the target vector (the 2nd parameter).  Binders by role: (counter, item) from the `for` pattern."""
+    enum_calls = hir.find_calls(tti["body"], "enumerate")
+    revs = hir.find_calls(tti["body"], "rev")
+    if len(enum_calls) != 1 or revs:
+        return False
+    loop_b, loop_body = [], None
+    for n_ in hir.walk(tti["body"]):
+        if n_.get("k") == "Match" and "ForLoop" in n_.get("source", ""):
+            for n2 in hir.walk(n_["arms"][0]["body"]):
+                if n2.get("k") == "Match":
+                    for a_ in n2["arms"]:
+                        if hir.pat_variants(a_["pat"]) == {"Some"}:
+                            inner_ = (a_["pat"].get("pats") or [fd["pat"] for fd in a_["pat"].get("fields", [])] or [{}])[0]
+                            if inner_.get("k") == "Tuple":
+                                loop_b = [q.get("name") for q in inner_["pats"]]
+                                loop_body = a_["body"]
+                    break
+            break
+    tparams = [q["name"] for q in tti["params"] if q.get("k") == "Binding"]
+    if len(loop_b) != 2 or len(tparams) != 2 or loop_body is None:
+        return False
+    ds = [(n_, hir.decision(n_)) for n_ in hir.walk(loop_body) if n_.get("k") in ("If", "Match")]
+    ds = [(n_, d) for n_, d in ds if d is not None and not (n_.get("k") == "Match" and hir.variant_test(n_) is not None)]
+    if len(ds) != 1:
+        return False
+    tests, then, els = ds[0][1]
+    subj = {}
+    for x, v, pos in tests:
+        x0 = strip(x)
+        while x0.get("k") == "AddrOf":
+            x0 = strip(x0["e"])
+        subj[(field_path(x0), v, pos)] = x0
+    slot = [k[0] for k in subj if k[1] == "None" and k[2]]
+    if len(tests) != 2 or len(slot) != 1 or slot[0] is None or len(slot[0]) != 1 or ((loop_b[1],), "Placeholder", True) not in subj:
+        return False
+    # the recording branch: counter into the slot, nothing stored
+    rec = [c for c in hir.find_calls(then, "insert") if field_path(c["recv"]) == slot[0] and field_path(c["args"][0]) == (loop_b[0],)]
+    for n_ in hir.walk(then):
+        if n_.get("k") == "Assign" and field_path(n_["l"]) == slot[0]:
+            r = strip(n_["r"])
+            if r.get("k") == "Call" and hir.callee_name(r) == "Some" and len(r["args"]) == 1 and field_path(r["args"][0]) == (loop_b[0],):
+                rec.append(n_)
+    if len(rec) != 1 or hir.find_calls(then, "push") or els is None:
+        return False
+    push = hir.find_calls(els, "push")
+    if not (len(push) == 1 and field_path(push[0]["recv"]) == (tparams[1],) and field_path(push[0]["args"][0]) == (loop_b[1],)):
+        return False
+    # the slot is what the function returns (tail expression) and nothing else writes it
+    tail = strip(tti["body"]).get("expr")
+    writes = [n_ for n_ in hir.walk(tti["body"]) if (n_.get("k") == "Assign" and field_path(n_["l"]) == slot[0])
+              or (n_.get("k") == "MethodCall" and n_.get("method") in ("insert", "replace", "take", "get_or_insert", "get_or_insert_with") and field_path(n_["recv"]) == slot[0])]
+    return tail is not None and field_path(tail) == slot[0] and len(writes) == 1
 
 
 def run(ctx):
